@@ -116,7 +116,7 @@ pub fn run(opts: &Opts) -> Result<(), String> {
     let mut out = Out::create(&opts.str("out", "refmerge.ndjson"))?;
     let max_conflicted = opts.usize("maxconflicted", 1);
     let n_random = opts.usize("random", 2000);
-    let mut rng = Rng::new(opts.u64("seed", 0));
+    let mut rng = Rng(Rng::new(opts.u64("seed", 0)).next()); // util::Rng::new(s+1) is Rng::new(s) shifted by one draw: mix
     let ts = targets(3, 3);
     let mut count = 0usize;
     for (name, par) in shapes() {
